@@ -403,6 +403,23 @@ def _old_binding(c, fn, new_name, if_stmt):
         outer = [l for l in ast.walk(fn) if isinstance(l, ast.For) and retry and any(x is retry[0] for x in ast.walk(l))]
         if outer and not any(x is defs[1] for x in ast.walk(outer[0])):
             problems.append("OLD is refreshed outside the per-coordinate loop")
+    # the CURRENT POINT the proposals are built from is loop-carried in the same way: where a sweep proposes from a local copy of the
+    # state (`cur = self.get_last()`; `prop = cur + ...`), that local must be refreshed from the accepted proposal together with OLD
+    cur_defs = [st for st in ast.walk(fn) if isinstance(st, ast.Assign) and len(st.targets) == 1 and isinstance(st.targets[0], ast.Name)
+                and U(st.value) == "self.get_last()"]
+    if len(cur_defs) == 1 and retry:
+        cur = cur_defs[0].targets[0].id
+        used_in_retry = any(isinstance(x, ast.Name) and x.id == cur and isinstance(x.ctx, ast.Load) for x in ast.walk(retry[0]))
+        if used_in_retry:
+            pcs = [n for n in ast.walk(retry[0]) if isinstance(n, ast.Call) and U(n.func) == "self.posterior" and n.args]
+            prop_name = U(pcs[0].args[0]) if len(pcs) == 1 else None
+            outer = [l for l in ast.walk(fn) if isinstance(l, ast.For) and any(x is retry[0] for x in ast.walk(l))]
+            refresh = [st for st in ast.walk(outer[0] if outer else fn) if isinstance(st, ast.Assign) and len(st.targets) == 1
+                       and U(st.targets[0]) == cur and st is not cur_defs[0] and st.lineno > retry[0].end_lineno]
+            good = [st for st in refresh if isinstance(mcmc.unwrap(st.value), ast.Name) and mcmc.unwrap(st.value).id == prop_name]
+            if outer and not good and prop_name != cur:          # (a sweep that updates the point in place proposes from it by construction)
+                problems.append(f"the point `{cur}` the proposals start from is never refreshed from the accepted proposal `{prop_name}` inside the "
+                                f"sweep: later coordinates propose from a stale point while OLD is the new point's probability")
     return struct_ob("new-old-binding", qual(c, fn), not problems, "; ".join(problems), rel, fn.lineno,
                      slots={"old": old_name, "new": new_name, "defs": [U(d) for d in defs]})
 
@@ -578,8 +595,18 @@ def _stretch(prog):
         okz = z0.eq(R.const(1).div(alpha)) and z1.eq(alpha)
         why = f"z(U=0) = {z0}, z(U=1) = {z1}"
         # z = c (a + b U)^2 : sqrt(z) linear in U  <=>  d2(z)/dU2 constant and discriminant form; checked through end points
-        d3 = anf.diff(anf.diff(anf.diff(zz, draws[0]), draws[0]), draws[0])
+        d1 = anf.diff(zz, draws[0])
+        d2 = anf.diff(d1, draws[0])
+        d3 = anf.diff(d2, draws[0])
         okz = okz and d3.is_zero()
+        # ... and a perfect square: z = A U^2 + B U + C with B^2 = 4 A C  (A = z''/2, B = z'(0), C = z(0)); any other quadratic through
+        # the same end points has another density than 1/sqrt(z)
+        if okz:
+            A_, B_, C_ = d2 / 2, anf.subst(d1, {draws[0]: R.const(0)}), z0
+            sq = (B_ * B_).eq(4 * A_ * C_)
+            if not sq:
+                okz = False
+                why += f"; z is not the square of an affine function of the draw (B^2 - 4AC = {B_ * B_ - 4 * A_ * C_})"
     out.append(struct_ob("stretch", qual(c, fn) + "[z-law]", okz,
                          "z must be quadratic in one uniform draw with z(0) = 1/alpha and z(1) = alpha (density ~ 1/sqrt(z)): " + why,
                          rel, zdef.lineno if zdef is not None else fn.lineno))
